@@ -786,7 +786,7 @@ class Lower:
                 return x
             raise
         if isinstance(name, dict):
-            return self.stub_expand(name, None, [self.E(a) for a in ins[1:]], n)
+            return self.stub_expand(name, None, [self.E(a) for a in ins[1:] if a.get('kind') != 'CXXDefaultArgExpr'], n)
         argl = self.args(tgt, ins[1:], self.param_types_from_sig(self.qt(r)), drop_defaults=(name not in self.fn_info))
         isref = self.call_returns_ref(tgt, r) or n.get('valueCategory') == 'lvalue'
         x = self.emit_call(name, argl, n, ref=isref)
